@@ -13,16 +13,19 @@ from mutants import MUTANTS
 
 
 def run_one(m, tier):
-    name, prop, path, old, new = m[:5]
+    name, prop, path = m[:3]
+    old, new = (m[3], m[4]) if len(m) > 4 else (None, None)
     d = tempfile.mkdtemp(prefix="mut.%s." % name, dir="/tmp")
     try:
         subprocess.run(["rsync", "-a", "--exclude", ".git", "/repo/", d + "/"], check=True)
-        fp = os.path.join(d, path)
-        src = open(fp).read()
-        if src.count(old) < 1:
-            return (name, prop, "PATCH-DOES-NOT-APPLY", 0, "")
-        src = src.replace(old, new, m[5] if len(m) > 5 else 1)
-        open(fp, "w").write(src)
+        edits = [(path, old, new)] if not isinstance(path, list) else path
+        for (pth, o, n) in edits:
+            fp = os.path.join(d, pth)
+            src = open(fp).read()
+            if src.count(o) < 1:
+                return (name, prop, "PATCH-DOES-NOT-APPLY", 0, o)
+            src = src.replace(o, n, 1)
+            open(fp, "w").write(src)
         env = dict(os.environ, VERIF_REPO=d, VERIF_SEED=os.environ.get("VERIF_SEED", "1"))
         t0 = time.time()
         p = subprocess.run([os.path.join(VERIF, "check"), prop, tier], env=env, stdout=subprocess.PIPE, stderr=subprocess.STDOUT, text=True)
